@@ -445,6 +445,9 @@ func trie2Type() typeDef {
 		opDef{"StartsWith(a)+drain", func(i any) string { q, err := i.(T).StartsWith("a"); return drain(q, err) }},
 		opDef{"LongestPrefix(abc)", func(i any) string { v, err := i.(T).LongestPrefix("abc"); return s(v, err != nil) }},
 		opDef{"Put(b,4)", func(i any) string { i.(T).Put("b", 4); return "" }},
+		opDef{"LongestPrefix(empty)", func(i any) string { v, err := i.(T).LongestPrefix(""); return s(v, err != nil) }},
+		opDef{"StartsWith(empty)", func(i any) string { _, err := i.(T).StartsWith(""); return s(err != nil) }},
+		opDef{"Get(empty)", func(i any) string { v, ok := i.(T).Get(""); return s(v, ok) }},
 	)
 	return td
 }
@@ -548,6 +551,10 @@ type seqRun struct {
 
 // sequential executes every order of the program's calls that respects each thread's
 // program order, one call at a time on a fresh instance.
+// seqBlocked is set by sequential when a call would block although the calls run one at a time
+// (a lock was leaked by an earlier call): the shim's locks panic with this prefix outside a controlled run.
+const blockedPrefix = "PANIC: vsync: "
+
 func sequential(td *typeDef, c Case) (runs []seqRun, anyPanic bool) {
 	calls := c.calls()
 	flat := map[callRef]int{}
@@ -774,6 +781,13 @@ func (m *mix) next() uint64 {
 func explore(t *testing.T, x *pbt.Ctx, td *typeDef, c Case, cap int64, extra int, seed uint64) (st progStats, fail bool) {
 	seq, anyPanic := sequential(td, c)
 	if anyPanic {
+		for _, sr := range seq {
+			if strings.Contains(sr.vector, blockedPrefix) {
+				// a call blocks forever although the calls run one at a time: an earlier call leaked a lock
+				x.Violation(c, fmt.Sprintf("%v: a call blocks forever even when the calls run ONE AT A TIME (an earlier call did not release a lock): results | ... || afterwards: %s", c, sr.vector), "enum")
+				return st, true
+			}
+		}
 		// A call that panics when run alone is a sequential defect (C03-C10), not a
 		// linearizability question: the program is skipped, and counted.
 		x.P.Labels["program skipped: a call panics sequentially"]++
@@ -954,6 +968,11 @@ func runCase(c Case, r *pbt.R) error {
 	}
 	seq, anyPanic := sequential(td, c)
 	if anyPanic {
+		for _, sr := range seq {
+			if strings.Contains(sr.vector, blockedPrefix) {
+				return fmt.Errorf("%v: a call blocks forever even when the calls run ONE AT A TIME (an earlier call did not release a lock): results | ... || afterwards: %s", c, sr.vector)
+			}
+		}
 		if r != nil {
 			r.Label("skipped: a call panics sequentially")
 		}
